@@ -200,6 +200,9 @@ func (c *Ctx) mapOrderInstr(fn *ssa.Function, hdr *ssa.BasicBlock, body map[*ssa
 		if cc.IsInvoke() {
 			return "interface call " + cc.Method.Name() + " inside a map range"
 		}
+		if sc := cc.StaticCallee(); sc != nil && c.inRoot(sc) && orderNeutralCallee(c, sc, 0) {
+			return "ok:in-package helper " + fnName(sc) + " has no effect outside its own locals and result (only listed calls)"
+		}
 		return "call of " + name + " inside a map range (not listed as commutative/idempotent)"
 	case *ssa.Send, *ssa.Go, *ssa.Defer, *ssa.Panic:
 		return fmt.Sprintf("%T inside a map range", ins)
@@ -247,4 +250,50 @@ func sortedAfter(phi *ssa.Phi, body map[*ssa.BasicBlock]bool) bool {
 		return false
 	}
 	return walk(phi)
+}
+
+// orderNeutralCallee: an in-package helper called from a map-range body that
+// cannot make the outcome depend on iteration order by itself: it stores only
+// into its own locals (including the backing arrays append hands back through
+// its result), updates no map, and calls only listed functions or helpers of
+// the same kind.  What the caller does with its result is checked in the caller.
+func orderNeutralCallee(c *Ctx, fn *ssa.Function, depth int) bool {
+	if fn.Blocks == nil || depth > 2 {
+		return false
+	}
+	for _, b := range fn.Blocks {
+		for _, ins := range b.Instrs {
+			switch x := ins.(type) {
+			case *ssa.MapUpdate, *ssa.Send, *ssa.Go, *ssa.Defer, *ssa.Panic:
+				return false
+			case *ssa.Store:
+				switch a := x.Addr.(type) {
+				case *ssa.Alloc:
+				case *ssa.IndexAddr:
+					if al, ok := a.X.(*ssa.Alloc); !ok || al.Comment != "varargs" {
+						return false
+					}
+				case *ssa.FieldAddr:
+					if _, isLocal := rootParam(a).(*ssa.Alloc); !isLocal {
+						return false
+					}
+				default:
+					return false
+				}
+			case ssa.CallInstruction:
+				cc := x.Common()
+				if _, ok := mapOrderCallAllow[calleeFullName(cc)]; ok {
+					continue
+				}
+				if cc.IsInvoke() {
+					return false
+				}
+				sc := cc.StaticCallee()
+				if sc == nil || !c.inRoot(sc) || sc == fn || !orderNeutralCallee(c, sc, depth+1) {
+					return false
+				}
+			}
+		}
+	}
+	return true
 }
